@@ -14,13 +14,13 @@ import (
 	"rocheck/internal/model"
 )
 
-// zeroCtxExempt lists zero-declared context variables whose reads were shown by hand to
+// zeroCtxExempt lists zero-declared context variables (keyed by declaring function and ordinal among its zero-declared context variables) whose reads were shown by hand to
 // never deliver the zero value; one symbol each, with the reason.
 var zeroCtxExempt = map[string]string{
-	"ro.MergeAll/parentCtx":            "the live-subscription counter starts at 1 for the outer source, so it reaches 0 (the only guarded read) only after the outer completion slot stored parentCtx",
-	"ro.RepeatWith/lastCtx":            "Wait returns either after the completion slot stored lastCtx or after the error slot closed the destination, in which case the trailing Complete is dropped",
-	"ro.OnErrorResumeNextWith/lastCtx": "nothing can close the composite during the loop, so every attempt ends through the error or completion slot and both store lastCtx",
-	"ro.CollectWithContext/lastCtx":    "returned to the caller, not delivered to a callback",
+	"ro.MergeAll/zero-ctx#1":              "the live-subscription counter starts at 1 for the outer source, so it reaches 0 (the only guarded read) only after the outer completion slot stored parentCtx",
+	"ro.RepeatWith/zero-ctx#1":            "Wait returns either after the completion slot stored lastCtx or after the error slot closed the destination, in which case the trailing Complete is dropped",
+	"ro.OnErrorResumeNextWith/zero-ctx#1": "nothing can close the composite during the loop, so every attempt ends through the error or completion slot and both store lastCtx",
+	"ro.CollectWithContext/zero-ctx#1":    "returned to the caller, not delivered to a callback",
 }
 
 func ruleCtxProvenance() check.Rule {
